@@ -52,20 +52,24 @@ class Explorer(object):
             viol += list(scn.check(w))
         return w, viol
 
-    def run(self):
+    def run(self, root=None):
+        """root=None: explore from the empty history.  root=[ops]: explore only the subtree below that
+        history (the root itself is assumed to be checked by another shard; a violating root has no subtree)."""
         global _EXPLORER
         _EXPLORER = self
         res = core.Result()
         t0 = time.time()
-        w, viol = self.build([])
+        root = [list(op) for op in (root or [])]
+        w, viol = self.build(root)
         c0 = core.short_hash(self.scn.canon(w)) if self.dedup else None
-        seen = {c0: []} if self.dedup else {}
-        self.states = 1
-        res.case(sig=c0 or 'root', sample=[])
-        for v in viol:
-            self._record(res, [], v)
-        frontier = [[]] if not viol else []
-        for d in range(1, self.depth + 1):
+        seen = {c0: root} if self.dedup else {}
+        if not root:
+            self.states = 1
+            res.case(sig=c0 or 'root', sample=[])
+            for v in viol:
+                self._record(res, [], v)
+        frontier = [root] if not viol else []
+        for d in range(len(root) + 1, self.depth + 1):
             if not frontier:
                 self.frontier_closed = True
                 break
